@@ -228,12 +228,13 @@ theorem keepsCheck_sound (src : List SrcToken) (c : Converted) (h : keepsCheck s
   · intro s hs k hk
     have := h1 s hs
     rw [hk] at this
-    simp only [keptSpecial, List.any_eq_true, Bool.and_eq_true, Bool.or_eq_true, beq_iff_eq, bne_iff_ne] at this
+    simp only [keptSpecial, List.any_eq_true, Bool.and_eq_true, Bool.or_eq_true, beq_iff_eq, bne_iff_ne,
+      Option.isNone_iff_eq_none] at this
     obtain ⟨sp, hsp, hkind, hid⟩ := this
     refine ⟨sp, hsp, hkind, ?_⟩
-    rcases hid with ⟨h1, h2⟩ | ⟨hb, v, hv, h1, h2⟩
+    rcases hid with ⟨h1, h2⟩ | ⟨hb, v, hv, ⟨h0, h1⟩, h2⟩
     · exact Or.inl ⟨h1, h2⟩
-    · exact Or.inr ⟨hb, v, hv, h1, h2⟩
+    · exact Or.inr ⟨hb, v, hv, h0, h1, h2⟩
   · intro e he
     have := h2 e he
     simp only [fromSource, List.any_eq_true, Bool.and_eq_true, Bool.or_eq_true, beq_iff_eq] at this
